@@ -1,17 +1,44 @@
 import AsherahVerif.Model.Aes
+import AsherahVerif.Model.Codec
 import AsherahVerif.Driver.Loop
 /-
-Line protocol of engine `fmt` (C18; byte-level parts of C07/C01).  PHASE 1: raw AEAD.
+Line protocol of engine `fmt` (C18; byte-level parts of C07/C01).  Written by go/cmd/hxfmt, one
+`op => observation` per line; operands hex (`-` = empty), ids/JSON texts are hex of their UTF-8.
 
-  enc <key> <nonce> <pt>   => ok:<c> | err:<class>      cryptoFunc.Encrypt with the random source pinned to <nonce>
-  dec <key> <c>            => ok:<pt> | err:<class> | panic   cryptoFunc.Decrypt
-(all operands hex, `-` = empty).  The driver evaluates the Lean model (`goEncrypt/goDecrypt` over
-`Aes.cipher`) on the same operands and prints `MISMATCH line N: …` when the observations differ.
+raw AEAD
+  enc <key> <nonce> <pt>            => ok:<c> | err:<class>          cryptoFunc.Encrypt, random source pinned to <nonce>
+  dec <key> <c>                     => ok:<pt> | err:<class> | panic cryptoFunc.Decrypt
+(a) SDK writes / reference reads
+  case <n>                          forget the rows of the previous case
+  row <id> <created> <json>         one metastore row as the SDK stores it (json.Marshal of the record)
+  chain <master> <part> <svc> <prod> <sfx|nil> <drrjson> => ok:<payload>
+(b) reference writes / SDK reads (two passes; `md_fmt answer` is the reference ENCODER)
+  build <n> <master> <sk> <ik> <drk> <n1> <n2> <n3> <n4> <part> <svc> <prod> <sfx|nil> <skc> <ikc> <drkc> <skrev> <ikrev> <pt>
+        answered by   built <n> <skid> <skc> <skrowjson> <ikid> <ikc> <ikrowjson> <drrjson>
+  lseal <n> <key> <nonce> <pt>      answered by   lsealed <n> <c>
+  sdkdec <n> <pt> => ok:<pt'> | err:…      the real SDK's Decrypt of the built hierarchy
+  goopen <n> <pt> => ok:<pt'> | err:…      cryptoFunc.Decrypt of the reference's layout
+(d) carriers — record text: EKR = <rev> <created> <keyhex> <parent>, parent = nil | <idhex>@<created>;
+                            DRR = <datahex> nil | <datahex> <EKR>
+  json-ekr <EKR> => <json>          json-drr <DRR> => <json>
+  unjson-ekr <json> => ekr:… | err  unjson-drr <json> => drr:… | err
+  sql-store <id> <created> <EKR> => <id> <unix> <key_record text>      sql-load <text> => ekr:… | err
+  ddb1-store / ddb2-store <id> <created> <EKR> => <flat item>
+  ddb1-load / ddb2-load <flat item> => ekr:… id:<hex> | err
+  pb-to <DRR> => pb:<data>:<created>:<key>:<pcreated>:<pid> | panic    pb-from <PB> => drr:…
+  keyid <part> <svc> <prod> <sfx|nil> => <skid> <ikid>
+
+`MISMATCH line N` = reference and Go disagree on an encoding; `MONITOR-FAIL line N` = an interop
+failure with a concrete input: the reference could not recover what the SDK wrote (or names a key
+differently), the SDK could not read what the reference wrote, or Go's JSON for a record does not
+decode back to that record under the documented format.
 -/
 namespace AsherahVerif.Driver.FmtEngine
-open AsherahVerif AsherahVerif.Gcm AsherahVerif.Driver
+open AsherahVerif AsherahVerif.Gcm AsherahVerif.Codec AsherahVerif.Driver
 
-def hexVal (c : Char) : Option Nat :=
+/-! ### operand syntax -/
+
+def hexVal1 (c : Char) : Option Nat :=
   if '0' ≤ c ∧ c ≤ '9' then some (c.toNat - 48)
   else if 'a' ≤ c ∧ c ≤ 'f' then some (c.toNat - 87)
   else if 'A' ≤ c ∧ c ≤ 'F' then some (c.toNat - 55) else none
@@ -19,21 +46,118 @@ def hexVal (c : Char) : Option Nat :=
 def unhexAux : List Char → List UInt8 → Option (List UInt8)
   | [], acc => some acc.reverse
   | a :: b :: r, acc => do
-    let x ← hexVal a; let y ← hexVal b
+    let x ← hexVal1 a; let y ← hexVal1 b
     unhexAux r (UInt8.ofNat (x * 16 + y) :: acc)
   | _, _ => none
 
 def unhex (s : String) : Option Bytes := if s == "-" then some [] else unhexAux s.toList []
 
-def hexDigit (n : Nat) : Char := if n < 10 then Char.ofNat (48 + n) else Char.ofNat (87 + n)
+def hexDigit1 (n : Nat) : Char := if n < 10 then Char.ofNat (48 + n) else Char.ofNat (87 + n)
 
 def hex (b : Bytes) : String :=
   if b.isEmpty then "-" else
-  String.ofList (b.foldr (fun x acc => hexDigit (x.toNat / 16) :: hexDigit (x.toNat % 16) :: acc) [])
+  String.ofList (b.foldr (fun x acc => hexDigit1 (x.toNat / 16) :: hexDigit1 (x.toNat % 16) :: acc) [])
+
+/-- hex of UTF-8 → characters. -/
+def unhexStr (s : String) : Option Str := do
+  let b ← unhex s
+  let t ← String.fromUTF8? (ByteArray.mk b.toArray)
+  pure t.toList
+
+def hexStr (s : Str) : String := hex (String.ofList s).toUTF8.toList
+
+def sfxOf (s : String) : Option (Option Str) :=
+  if s == "nil" then some none else (unhexStr s).map some
+
+def int64Of (s : String) : Option Int64 := s.toInt?.bind int64OfInt
+
+def parseParent (s : String) : Option (Option KeyMeta) :=
+  if s == "nil" then some none else
+  match s.splitOn "@" with
+  | [i, c] => do let id ← unhexStr i; let c ← int64Of c; pure (some ⟨id, c⟩)
+  | _ => none
+
+def parseEKR : List String → Option EKR
+  | [r, c, k, p] => do
+    let c ← int64Of c; let k ← unhex k; let p ← parseParent p
+    pure ⟨r == "1", c, k, p⟩
+  | _ => none
+
+def parseDRR : List String → Option DRR
+  | [d, "nil"] => do pure ⟨none, ← unhex d⟩
+  | d :: rest => do let e ← parseEKR rest; pure ⟨some e, ← unhex d⟩
+  | _ => none
+
+def showParent : Option KeyMeta → String
+  | none => "nil"
+  | some m => s!"{hexStr m.id}@{m.created.toInt}"
+
+def showEKR (sep : String) (e : EKR) : String :=
+  sep.intercalate [if e.revoked then "1" else "0", toString e.created.toInt, hex e.key, showParent e.parent]
+
+def ekrObs (e : EKR) : String := "ekr:" ++ showEKR ":" e
+
+def drrObs (d : DRR) : String :=
+  match d.key with
+  | none => s!"drr:{hex d.data}:nil"
+  | some e => s!"drr:{hex d.data}:{showEKR ":" e}"
 
 def showRes : Except Err Bytes → String
   | .ok b => "ok:" ++ hex b
   | .error e => "err:" ++ e.name
+
+/-! ### flat attribute trees -/
+
+def insertAV : List Str → AV → List (Str × AV) → List (Str × AV)
+  | [], _, kvs => kvs
+  | [k], leaf, kvs =>
+    match leaf, lookup k kvs with
+    | .m _, some _ => kvs                       -- a map created on demand by its children stays
+    | _, _ => kvs.filter (fun p => p.1 ≠ k) ++ [(k, leaf)]
+  | k :: rest, leaf, kvs =>
+    let sub := match lookup k kvs with
+      | some (.m s) => s
+      | _ => []
+    kvs.filter (fun p => p.1 ≠ k) ++ [(k, .m (insertAV rest leaf sub))]
+
+def parseLeaf (kind val : String) : Option AV :=
+  match kind with
+  | "S" => (unhexStr (if val == "" then "-" else val)).map .s
+  | "N" => (unhexStr (if val == "" then "-" else val)).map .n
+  | "B" => (unhex (if val == "" then "-" else val)).map .b
+  | "BOOL" => some (.bool (val == "1"))
+  | "NULL" => some .null
+  | "M" => some (.m [])
+  | _ => none
+
+def unflat (text : String) : Option AV :=
+  if text == "-" then some (.m []) else
+  (text.splitOn ";").foldlM (fun (acc : AV) ent =>
+    match acc, ent.splitOn "=" with
+    | .m kvs, [path, tv] =>
+      match tv.splitOn ":" with
+      | [kind, val] => do
+        let leaf ← parseLeaf kind val
+        pure (.m (insertAV ((path.splitOn ".").map String.toList) leaf kvs))
+      | _ => none
+    | _, _ => none) (.m [])
+
+partial def flatLines (path : String) : AV → List String
+  | .s v => [s!"{path}=S:{hexStr v}"]
+  | .n v => [s!"{path}=N:{hexStr v}"]
+  | .b v => [s!"{path}=B:{hex v}"]
+  | .bool b => [s!"{path}=BOOL:{if b then "1" else "0"}"]
+  | .null => [s!"{path}=NULL:"]
+  | .l _ => [s!"{path}=L:?"]
+  | .m kvs =>
+    (if path == "" then [] else [s!"{path}=M:"]) ++
+    kvs.flatMap (fun (k, v) => flatLines (if path == "" then String.ofList k else path ++ "." ++ String.ofList k) v)
+
+def flatText (root : AV) : String :=
+  let ls := (flatLines "" root).toArray.qsort (· < ·)
+  if ls.isEmpty then "-" else ";".intercalate ls.toList
+
+/-! ### state -/
 
 structure St where
   lineNo : Nat := 0
@@ -41,41 +165,244 @@ structure St where
   cases : Nat := 0
   mism : Nat := 0
   monFail : Nat := 0
-  encOk : Nat := 0
-  decOk : Nat := 0
-  decErr : Nat := 0
+  rows : List Row := []
+  aead : Nat := 0
+  aeadErr : Nat := 0
+  chains : Nat := 0
+  sdkdec : Nat := 0
+  goopen : Nat := 0
+  json : Nat := 0
+  unjson : Nat := 0
+  sql : Nat := 0
+  ddb : Nat := 0
+  pb : Nat := 0
+  keyids : Nat := 0
+  revokedRows : Nat := 0
+  suffixed : Nat := 0
   bytes : Nat := 0
 
-def evalOp (ws : List String) : Option String :=
-  match ws with
-  | ["enc", k, n, p] => do
-    let k ← unhex k; let n ← unhex n; let p ← unhex p
-    pure (showRes (goEncrypt Aes.cipher k n p))
-  | ["dec", k, c] => do
-    let k ← unhex k; let c ← unhex c
-    pure (showRes (goDecrypt Aes.cipher k c))
+inductive Verdict where
+  | same
+  | mismatch (model : String)
+  | monitor (why : String)
+  | bad
+
+def cmp (mine obs : String) : Verdict := if mine == obs then .same else .mismatch mine
+
+def jsonOf (s : Str) : String := hexStr s
+
+def pbObs : PbOut → String
+  | .panic => "panic"
+  | .ok p =>
+    match p.key with
+    | none => s!"pb:{hex p.data}:nil"
+    | some k =>
+      match k.parent with
+      | none => s!"pb:{hex p.data}:{k.created.toInt}:{hex k.key}:nil"
+      | some m => s!"pb:{hex p.data}:{k.created.toInt}:{hex k.key}:{m.created.toInt}:{hexStr m.keyId}"
+
+def parsePB : List String → Option PbDRR
+  | [d, "nil"] => do pure ⟨none, ← unhex d⟩
+  | [d, c, k, "nil"] => do pure ⟨some ⟨← int64Of c, ← unhex k, none⟩, ← unhex d⟩
+  | [d, c, k, pc, pid] => do pure ⟨some ⟨← int64Of c, ← unhex k, some ⟨← int64Of pc, ← unhexStr pid⟩⟩, ← unhex d⟩
   | _ => none
+
+/-- the chain op: decrypt with the reference, and check the key ids against the documented formats. -/
+def chainVerdict (rows : List Row) (ws : List String) (obs : String) : Option Verdict :=
+  match ws with
+  | [master, part, svc, prod, sfx, drrj] => do
+    let master ← unhex master; let part ← unhexStr part; let svc ← unhexStr svc; let prod ← unhexStr prod
+    let sfx ← sfxOf sfx; let drrj ← unhexStr drrj
+    let mine := match decryptChain Aes.cipher rows master drrj with
+      | .ok b => "ok:" ++ hex b
+      | .error e => "err:" ++ e.name
+    if mine != obs then
+      pure (.monitor s!"reference decoder does not recover the SDK's payload: {mine.take 60} (SDK payload {obs.take 40})")
+    else
+      let wantIk := ikId part svc prod sfx
+      let wantSk := skId svc prod sfx
+      let ok : Bool := match decodeDRR drrj with
+        | some ⟨some ⟨_, _, _, some pm⟩, _⟩ =>
+          decide (pm.id = wantIk) &&
+          (match findRow rows pm.id pm.created with
+           | some r => match sqlRowDecode r with
+             | some ⟨_, _, _, some sm⟩ => decide (sm.id = wantSk)
+             | _ => false
+           | none => false)
+        | _ => false
+      if ok then pure .same else pure (.monitor s!"key ids differ from the documented format: want {String.ofList wantIk} under {String.ofList wantSk}")
+  | _ => none
+
+def evalOp (s : St) (ws : List String) (obs : String) : St × Verdict :=
+  let ret (s : St) (v : Option Verdict) : St × Verdict := (s, v.getD .bad)
+  match ws with
+  | ["enc", k, n, p] =>
+    let v := do
+      let k ← unhex k; let n ← unhex n; let p ← unhex p
+      pure (cmp (showRes (goEncrypt Aes.cipher k n p)) obs)
+    ret { s with aead := s.aead + 1, aeadErr := s.aeadErr + (if obs.startsWith "err" then 1 else 0) } v
+  | ["dec", k, c] =>
+    let v := do
+      let k ← unhex k; let c ← unhex c
+      pure (cmp (showRes (goDecrypt Aes.cipher k c)) obs)
+    ret { s with aead := s.aead + 1, aeadErr := s.aeadErr + (if obs.startsWith "err" then 1 else 0) } v
+  | ["case", _] => ({ s with rows := [], cases := s.cases + 1 }, .same)
+  | ["row", id, c, js] =>
+    match (do let id ← unhexStr id; let c ← int64Of c; let js ← unhexStr js; pure (⟨id, c, js⟩ : Row)) with
+    | some r =>
+      let rev := match sqlRowDecode r with
+        | some e => if e.revoked then 1 else 0
+        | none => 0
+      ({ s with rows := s.rows ++ [r], revokedRows := s.revokedRows + rev }, .same)
+    | none => (s, .bad)
+  | "chain" :: rest =>
+    ret { s with chains := s.chains + 1, suffixed := s.suffixed + (if rest.getD 4 "nil" != "nil" then 1 else 0) }
+      (chainVerdict s.rows rest obs)
+  | ["sdkdec", _, pt] =>
+    ({ s with sdkdec := s.sdkdec + 1 },
+      if obs == "ok:" ++ pt then .same else .monitor s!"the SDK does not decrypt what the reference encoder wrote: {obs.take 100}")
+  | ["goopen", _, pt] =>
+    ({ s with goopen := s.goopen + 1 },
+      if obs == "ok:" ++ pt then .same else .monitor s!"cryptoFunc.Decrypt does not open the reference layout: {obs.take 60}")
+  | "json-ekr" :: rest =>
+    ret { s with json := s.json + 1 } do
+      let e ← parseEKR rest
+      let mine := jsonOf (encodeEKR e)
+      if mine == obs then pure .same else
+      match (unhexStr obs).bind decodeEKR with
+      | some e' => if e' = e then pure (.mismatch mine) else pure (.monitor "Go's JSON of the key record decodes to a different record under the documented format")
+      | none => pure (.monitor "Go's JSON of the key record is not readable under the documented format")
+  | "json-drr" :: rest =>
+    ret { s with json := s.json + 1 } do
+      let d ← parseDRR rest
+      let mine := jsonOf (encodeDRR d)
+      if mine == obs then pure .same else
+      match (unhexStr obs).bind decodeDRR with
+      | some d' => if d' = d then pure (.mismatch mine) else pure (.monitor "Go's JSON of the data row record decodes to a different record under the documented format")
+      | none => pure (.monitor "Go's JSON of the data row record is not readable under the documented format")
+  | ["unjson-ekr", js] =>
+    ret { s with unjson := s.unjson + 1 } do
+      let t ← unhexStr js
+      pure (cmp (match decodeEKR t with | some e => ekrObs e | none => "err") obs)
+  | ["unjson-drr", js] =>
+    ret { s with unjson := s.unjson + 1 } do
+      let t ← unhexStr js
+      pure (cmp (match decodeDRR t with | some d => drrObs d | none => "err") obs)
+  | "sql-store" :: id :: c :: rest =>
+    ret { s with sql := s.sql + 1 } do
+      let idS ← unhexStr id; let c ← int64Of c; let e ← parseEKR rest
+      let r := sqlRowOf idS c e
+      pure (cmp s!"{hexStr r.id} {r.created.toInt} {hexStr r.keyRecord}" obs)
+  | ["sql-load", js] =>
+    ret { s with sql := s.sql + 1 } do
+      let t ← unhexStr js
+      pure (cmp (match sqlRowDecode ⟨[], 0, t⟩ with | some e => ekrObs e | none => "err") obs)
+  | "ddb1-store" :: id :: c :: rest =>
+    ret { s with ddb := s.ddb + 1 } do
+      let idS ← unhexStr id; let c ← int64Of c; let e ← parseEKR rest
+      pure (cmp (flatText (itemToAV1 idS c e)) obs)
+  | "ddb2-store" :: id :: c :: rest =>
+    ret { s with ddb := s.ddb + 1 } do
+      let idS ← unhexStr id; let c ← int64Of c; let e ← parseEKR rest
+      pure (cmp (flatText (itemToAV idS c e)) obs)
+  | ["ddb1-load", flat] =>
+    ret { s with ddb := s.ddb + 1 } do
+      let item ← unflat flat
+      -- aws-v1 Load hands only the KeyRecord attribute to the unmarshaler; the record id is not set
+      let mine := match item with
+        | .m kvs => match lookup nKeyRecord kvs with
+          | some kr => (match avToEKR kr with | some e => ekrObs e ++ " id:-" | none => "err")
+          | none => "err"
+        | _ => "err"
+      pure (cmp mine obs)
+  | ["ddb2-load", flat] =>
+    ret { s with ddb := s.ddb + 1 } do
+      let item ← unflat flat
+      pure (cmp (match avToItem item with | some (id, e) => ekrObs e ++ " id:" ++ hexStr id | none => "err") obs)
+  | "pb-to" :: rest =>
+    ret { s with pb := s.pb + 1 } do
+      let d ← parseDRR rest
+      pure (cmp (pbObs (toPb d)) obs)
+  | "pb-from" :: rest =>
+    ret { s with pb := s.pb + 1 } do
+      let p ← parsePB rest
+      pure (cmp (drrObs (fromPb p)) obs)
+  | ["keyid", part, svc, prod, sfx] =>
+    ret { s with keyids := s.keyids + 1 } do
+      let part ← unhexStr part; let svc ← unhexStr svc; let prod ← unhexStr prod; let sfx ← sfxOf sfx
+      pure (cmp s!"{hexStr (skId svc prod sfx)} {hexStr (ikId part svc prod sfx)}" obs)
+  | _ => (s, .bad)
 
 def step (s : St) (line : String) : St × Array String :=
   let s := { s with lineNo := s.lineNo + 1 }
   if line.startsWith "#" then (s, #[]) else
   let (op, obs) := splitObs line
   let ws := words op
-  match evalOp ws with
-  | none => ({ s with ops := s.ops + 1, mism := s.mism + 1 }, #[s!"MISMATCH line {s.lineNo}: bad-op {op.take 60}"])
-  | some mine =>
-    let s := { s with ops := s.ops + 1, cases := s.cases + 1, bytes := s.bytes + line.length / 2 }
-    let s := match ws.head? with
-      | some "enc" => if mine.startsWith "ok" then { s with encOk := s.encOk + 1 } else s
-      | some "dec" => if mine.startsWith "ok" then { s with decOk := s.decOk + 1 } else { s with decErr := s.decErr + 1 }
-      | _ => s
-    if mine == obs then (s, #[])
-    else ({ s with mism := s.mism + 1 },
-          #[s!"MISMATCH line {s.lineNo}: {(ws.head?.getD "")} go={obs.take 80} model={mine.take 80}"])
+  let (s, v) := evalOp s ws obs
+  let s := { s with ops := s.ops + 1, bytes := s.bytes + line.length / 2 }
+  let opName := ws.head?.getD ""
+  match v with
+  | .same => (s, #[])
+  | .mismatch mine =>
+    ({ s with mism := s.mism + 1 }, #[s!"MISMATCH line {s.lineNo}: {opName} go={obs.take 120} model={mine.take 120}"])
+  | .monitor why => ({ s with monFail := s.monFail + 1 }, #[s!"MONITOR-FAIL line {s.lineNo}: {opName} {why}"])
+  | .bad => ({ s with mism := s.mism + 1 }, #[s!"MISMATCH line {s.lineNo}: bad-op {op.take 80}"])
+
+/-! ### self test (labelled as a TEST, not a theorem): NIST GCM test case 15 and RFC 4648 vectors -/
+
+def selfTest : List String :=
+  let key := unhex "feffe9928665731c6d6a8f9467308308feffe9928665731c6d6a8f9467308308"
+  let iv := unhex "cafebabefacedbaddecaf888"
+  let pt := unhex "d9313225f88406e5a55909c5aff5269a86a7a9531534f7da2e4c303d8a318a721c3c0c95956809532fcf0e2449a6b525b16aedf5aa0de657ba637b391aafd255"
+  let want := "522dc1f099567d07f47f37a32a84427d643a8cdcbfe5c0c97598a2bd2555d1aa8cb08e48590dbb3da7b08b1056828838c5f61e6393ba7a0abcc9f662898015adb094dac5d93471bdec1a502270e3cc6ccafebabefacedbaddecaf888"
+  let gcmOk := match key, iv, pt with
+    | some k, some n, some p => showRes (goEncrypt Aes.cipher k n p) == "ok:" ++ want
+    | _, _, _ => false
+  let b64Ok := String.ofList (b64Encode "foobar".toUTF8.toList) == "Zm9vYmFy" &&
+    String.ofList (b64Encode "fooba".toUTF8.toList) == "Zm9vYmE=" &&
+    String.ofList (b64Encode "foob".toUTF8.toList) == "Zm9vYg==" &&
+    b64Decode "Zm9vYg==".toList == some "foob".toUTF8.toList
+  (if gcmOk then [] else ["MISMATCH line 0: selftest NIST AES-256-GCM test case 15 fails in the Lean model"]) ++
+  (if b64Ok then [] else ["MISMATCH line 0: selftest RFC 4648 base64 vectors fail in the Lean model"])
 
 def finish (s : St) : Array String :=
-  #[s!"SUMMARY engine=fmt cases={s.cases} ops={s.ops} mismatches={s.mism} monitor_fail={s.monFail} enc_ok={s.encOk} dec_ok={s.decOk} dec_err={s.decErr} bytes={s.bytes}"]
+  let st := selfTest
+  let mism := s.mism + st.length
+  st.toArray ++
+  #[s!"SUMMARY engine=fmt cases={s.cases} ops={s.ops} mismatches={mism} monitor_fail={s.monFail} aead={s.aead} aead_err={s.aeadErr} chains={s.chains} sdkdec={s.sdkdec} goopen={s.goopen} json={s.json} unjson={s.unjson} sql={s.sql} ddb={s.ddb} pb={s.pb} keyids={s.keyids} revoked_rows={s.revokedRows} suffixed={s.suffixed} bytes={s.bytes}"]
 
 def engine : Engine St := { init := {}, step := step, finish := finish }
+
+/-! ### answer mode: the reference ENCODER -/
+
+def answer (line : String) : Option String :=
+  match words line with
+  | ["build", n, master, sk, ik, drk, n1, n2, n3, n4, part, svc, prod, sfx, skc, ikc, drkc, skrev, ikrev, pt] => do
+    let r : BuildReq := {
+      master := ← unhex master, sk := ← unhex sk, ik := ← unhex ik, drk := ← unhex drk,
+      n1 := ← unhex n1, n2 := ← unhex n2, n3 := ← unhex n3, n4 := ← unhex n4,
+      partition := ← unhexStr part, service := ← unhexStr svc, product := ← unhexStr prod, suffix := ← sfxOf sfx,
+      skCreated := ← int64Of skc, ikCreated := ← int64Of ikc, drkCreated := ← int64Of drkc,
+      skRevoked := skrev == "1", ikRevoked := ikrev == "1", payload := ← unhex pt }
+    match buildChain Aes.cipher r with
+    | .ok b =>
+      pure s!"built {n} {hexStr b.skRow.id} {b.skRow.created.toInt} {hexStr b.skRow.keyRecord} {hexStr b.ikRow.id} {b.ikRow.created.toInt} {hexStr b.ikRow.keyRecord} {hexStr b.drr}"
+    | .error e => pure s!"build-error {n} {e.name}"
+  | ["lseal", n, k, nonce, pt] => do
+    let k ← unhex k; let nonce ← unhex nonce; let pt ← unhex pt
+    match goEncrypt Aes.cipher k nonce pt with
+    | .ok c => pure s!"lsealed {n} {hex c}"
+    | .error e => pure s!"lseal-error {n} {e.name}"
+  | _ => none
+
+partial def answerLoop (inp out : IO.FS.Stream) : IO Unit := do
+  let line ← inp.getLine
+  if line.isEmpty then out.flush; return ()
+  let line := (line.dropEndWhile (fun c => c == '\n' || c == '\r')).toString
+  if !(line.isEmpty || line.startsWith "#") then
+    match answer line with
+    | some a => out.putStrLn a
+    | none => out.putStrLn s!"bad-request {line.take 60}"
+  answerLoop inp out
 
 end AsherahVerif.Driver.FmtEngine
